@@ -90,7 +90,7 @@ theorem shouldCloseProp_false_empty (c : Conn P) (h : c.shouldCloseProp = false)
 
 theorem setResponseParams_clean (c : Conn P) (now : Nat) (fc skip : Bool) (h : c.tail = []) :
     (c.setResponseParams now fc skip).1 =
-      { c with skip := skip, parser := some (P.init skip), ptags := [], cur := none, tailTags := [] } := by
+      { c with skip := skip, parser := some (P.init skip), ptags := [], cur := none, pj := c.owner, tailTags := [] } := by
   unfold Conn.setResponseParams
   simp [h]
 
